@@ -13,6 +13,9 @@ pub const PROP: &str = "C10";
 fn return_types() -> Vec<(&'static str, Ty)> {
     let mut v = vec![("void", Ty::void()), ("array-of-void", Ty::array(Ty::void()))];
     v.extend(category_types().into_iter().filter(|c| c.0 != "array-of-parcelable" && c.0 != "raw-map"));
+    // data values: user types spelled like the keyword up to letter case
+    v.push(("unknown-type-named-Void", Ty::custom("Void")));
+    v.push(("unknown-type-named-VOID", Ty::array(Ty::custom("VOID"))));
     v
 }
 
@@ -48,6 +51,20 @@ fn make_case(forms: &[usize], iface_oneway: bool, variant: usize) -> Case {
             m.annots.push(crate::model::seeds::annot_with("@A", vec![("k", Some(Scalar::Integer("1".into())))], false));
         }
         item.members.push(Member::Method(m));
+    }
+    if variant == 6 {
+        // data values: large (legal) explicit transact codes on every method
+        let mut n = 0u64;
+        for m in item.members.iter_mut() {
+            if let Member::Method(mm) = m {
+                mm.code = Some(match n % 3 {
+                    0 => format!("{}", 16777215 + n),
+                    1 => format!("{}", 4294967295 - n),
+                    _ => format!("{}", 2147483648 + n),
+                });
+                n += 1;
+            }
+        }
     }
     if variant == 5 {
         let mut z = Method::new(Ty::void(), "zz", vec![]);
@@ -89,7 +106,7 @@ fn make_case(forms: &[usize], iface_oneway: bool, variant: usize) -> Case {
                 .map(|f| format!("{}{}", if f % 2 == 1 { "oneway " } else { "" }, rts[f / 2].0))
                 .collect::<Vec<_>>()
                 .join(", "),
-            ["plain", "constant first", "constant between", "same method name", "annotated methods", "overflowing transact code elsewhere"][variant]
+            ["plain", "constant first", "constant between", "same method name", "annotated methods", "overflowing transact code elsewhere", "large transact codes"][variant]
         ),
         files: files.iter().map(|f| (f.id.clone(), f.text.clone())).collect(),
         expect,
@@ -137,15 +154,15 @@ pub fn run(tier: Tier, seed: u64) -> i32 {
             }
         }
     }
-    let n = lists.len() * 2 * 6;
+    let n = lists.len() * 2 * 7;
     super::drive(
         &stats,
         n,
         1,
         |i| {
-            let variant = i % 6;
-            let io = (i / 6) % 2 == 1;
-            let l = &lists[i / 12];
+            let variant = i % 7;
+            let io = (i / 7) % 2 == 1;
+            let l = &lists[i / 14];
             if (variant == 2 && l.len() < 2) || (variant == 3 && l.len() < 2) || (variant == 1 && l.is_empty()) || (variant == 4 && l.is_empty()) {
                 return None;
             }
@@ -158,7 +175,7 @@ pub fn run(tier: Tier, seed: u64) -> i32 {
         },
         check_case,
     );
-    stats.space(json!({"space": "method lists", "forms": nforms, "return_types": rts.iter().map(|r| r.0).collect::<Vec<_>>(), "lists": lists.len(), "interface_oneway": 2, "variants": ["plain", "constant first", "constant between", "same method name", "annotated methods", "overflowing transact code elsewhere"]}));
+    stats.space(json!({"space": "method lists", "forms": nforms, "return_types": rts.iter().map(|r| r.0).collect::<Vec<_>>(), "lists": lists.len(), "interface_oneway": 2, "variants": ["plain", "constant first", "constant between", "same method name", "annotated methods", "overflowing transact code elsewhere", "large transact codes"]}));
     // size dimension: oneway interfaces with 8..=40 methods (all / every other one spelling oneway)
     let sizes = [8usize, 15, 16, 17, 18, 24, 33, 40];
     super::drive(
